@@ -104,6 +104,32 @@ def run(rep, tier):
         for x in recs:
             if x.get("fail"):
                 rep.violation("roundtrip:prec%d" % x["prec"], "%s (nr_exp=%s aniso=%s divideBy2=%s R0=%s)" % (x["what"], x["nrexp"], x["a"], x["d"], x["R0"]), replay=x)
+    # which user-supplied coordinate vectors are accepted (checkParameters): spec/GridValid.tla Accept <=> IdealValid, decisions vs both constructors
+    vlib.sany("GridValidMC")
+    vc = os.path.join(vlib.BUILD, "cfg", "gridvalid_%s.cfg" % tier)
+    open(vc, "w").write("SPECIFICATION Spec\nCONSTANTS\n  Full = %d\n  RadVals <- RadValsMC\n  EmitTables = TRUE\nINVARIANTS AcceptIsValid Emit\n" % (12 if thorough else 8))
+    r = vlib.tlc("GridValidMC", vc, tag="c18valid", workers=8, timeout=1500)
+    rep.add_tlc(r, "GridValid.tla every angle set within one circle of %d units and its disordered variants; every short radius vector" % (12 if thorough else 8))
+    if not vlib.tlc_must_hold(r, "GridValid.tla"):
+        rep.violation("model:valid:" + r.violation, vlib.counterexample(r)[:2000], replay={"tlc": vlib.counterexample(r)[:5000]})
+    else:
+        path = os.path.join(vlib.BUILD, "cases", "c18_valid_%s.ndjson" % tier)
+        nacc = 0
+        with open(path, "w") as f:
+            for c in r.cases:
+                f.write(json.dumps(c, separators=(",", ":")) + "\n")
+                nacc += c["accept"]
+                rep.case(key="coords:" + json.dumps([c["rad"], c["ang"]]), nontrivial=len(c["ang"]) >= 3)
+        rep.cov["coordinate_sets_accepted_by_model"] = nacc
+        tmp = os.path.join(vlib.BUILD, "tmp_c18")
+        os.makedirs(tmp, exist_ok=True)
+        rc, recs, out = vlib.run_driver(exe, ["valid", path, tmp], timeout=1800)
+        if rc != 0 or not any(x.get("summary") for x in recs):
+            rep.violation("valid:crash", "constructor crashed on a coordinate set (rc=%s): %s" % (rc, out[-400:]), replay={"tables": path})
+        for x in recs:
+            if x.get("fail"):
+                t = x["table"]
+                rep.violation("valid:%s:%s" % ("accepted" if not t["accept"] else "rejected", t["why"]), "%s -- radii %s angles %s (units of 2pi/%d)" % (x["what"], t["rad"], t["ang"], t["full"]), replay=t)
     rep.cov["exhaustive"] = True
     rep.cov["rule"] = ("every (nr_exp, anisotropic_factor, floor(nr*percentage) from below 0 to above nr, divideBy2, ntheta_exp, level cap) of the box; "
                        "every token file up to the length bound; non-trivial = anisotropic or refined / at least two tokens")
